@@ -1,0 +1,100 @@
+//go:build verif
+// +build verif
+
+// Contracts for the deductive verifier in /verif (govc). Comment-only: this file adds no code.
+
+package bitword
+
+// ---- C08: n-bit words ----
+
+//@ func newBW returns (r)
+//@   initphase
+//@   dyntype r *bitWord
+//@   requires n == 1 || n == 2 || n == 4 || n == 8
+//@   ensures bwInv(r) && r.width == n
+//@   assigns nothing
+
+//@ func init
+//@   initphase
+//@   assigns BitWord
+//@   mapentries BitWord (k, v) :: bwInv(v) && v.width == k && (k == 1 || k == 2 || k == 4 || k == 8)
+
+//@ func bitWord.Get returns (r)
+//@   witness-gen w = newBW([]int{1, 2, 4, 8}[r.Intn(4)]).(*bitWord)
+//@   requires bwInv(w) && 0 <= ith && ith < len(s) * (8 / w.width)
+//@   ensures r == sword(s, ith, w.width)
+//@   assigns nothing
+//@   split w.width 1 8
+
+//@ func bitWord.FromStr returns (words)
+//@   witness-gen w = newBW([]int{1, 2, 4, 8}[r.Intn(4)]).(*bitWord)
+//@   requires bwInv(w) && len(s) < 1<<44
+//@   ensures len(words) == len(s) * (8 / w.width)
+//@   ensures forall k int :: 0 <= k && k < len(words) ==> words[k] == sword(s, k, w.width)
+//@   ensures fresh(words)
+//@   assigns nothing
+//@   split w.width 1 8
+//@   loop 1
+//@     invariant 0 <= i && i <= lenSrc && lenSrc == len(s) && m == 8 / w.width && len(words) == lenSrc * m
+//@     invariant forall k int :: 0 <= k && k < i * m ==> words[k] == sword(s, k, w.width)
+//@   loop 2
+//@     invariant 0 <= j && j <= m && 0 <= i && i < lenSrc && lenSrc == len(s) && m == 8 / w.width && len(words) == lenSrc * m && b == s[i]
+//@     invariant forall k int :: 0 <= k && k < i * m + j ==> words[k] == sword(s, k, w.width)
+
+//@ func bitWord.ToStr returns (r)
+//@   witness-gen w = newBW([]int{1, 2, 4, 8}[r.Intn(4)]).(*bitWord)
+//@   witness-gen bs = func() []byte { o := make([]byte, len(bs)); for i := range bs { o[i] = bs[i] & w.wordMask }; return o }()
+//@   requires bwInv(w)
+//@   requires forall k int :: 0 <= k && k < len(bs) ==> bs[k] <= w.wordMask
+//@   ensures len(r) == (len(bs) + 8 / w.width - 1) / (8 / w.width)
+//@   ensures forall k int :: 0 <= k && k < len(r) ==> r[k] == pk(bs, k, w.width, 8 / w.width)
+//@   assigns nothing
+//@   split w.width 1 8
+//@   loop 1
+//@     invariant 0 <= i && i <= len(strbs) && m == 8 / w.width && len(strbs) == sz && sz == (len(bs) + m - 1) / m && fresh(strbs)
+//@     invariant forall k int :: 0 <= k && k < i ==> strbs[k] == pk(bs, k, w.width, m)
+//@   loop 2
+//@     invariant 0 <= j && j <= m && 0 <= i && i < len(strbs) && m == 8 / w.width && len(strbs) == sz && sz == (len(bs) + m - 1) / m && fresh(strbs)
+//@     invariant b == pk(bs, i, w.width, j)
+//@     invariant forall k int :: 0 <= k && k < i ==> strbs[k] == pk(bs, k, w.width, m)
+
+//@ func bitWord.FirstDiff returns (r)
+//@   witness-gen w = newBW([]int{1, 2, 4, 8}[r.Intn(4)]).(*bitWord)
+//@   requires bwInv(w) && 0 <= from && end >= -1
+//@   ensures r == fdLim(len(a) * (8 / w.width), len(b) * (8 / w.width), end) || (from <= r && r < fdLim(len(a) * (8 / w.width), len(b) * (8 / w.width), end) && sword(a, r, w.width) != sword(b, r, w.width))
+//@   ensures forall k int :: from <= k && k < r && k < fdLim(len(a) * (8 / w.width), len(b) * (8 / w.width), end) ==> sword(a, k, w.width) == sword(b, k, w.width)
+//@   assigns nothing
+//@   split w.width 1 8
+//@   loop 1
+//@     invariant from <= i && la == len(a) * w.byteCap && lb == len(b) * w.byteCap && end == fdLim(la, lb, old(end))
+//@     invariant forall k int :: from <= k && k < i && k < end ==> sword(a, k, w.width) == sword(b, k, w.width)
+
+//@ func bitWord.FromStrs returns (rst)
+//@   witness-gen w = newBW([]int{1, 2, 4, 8}[r.Intn(4)]).(*bitWord)
+//@   requires bwInv(w)
+//@   requires forall i int :: 0 <= i && i < len(strs) ==> len(strs[i]) < 1<<44
+//@   requires len(strs) < 1<<40
+//@   ensures len(rst) == len(strs)
+//@   ensures forall i int :: 0 <= i && i < len(strs) ==> len(rst[i]) == len(strs[i]) * (8 / w.width)
+//@   ensures forall i int, k int :: 0 <= i && i < len(strs) && 0 <= k && k < len(rst[i]) ==> rst[i][k] == sword(strs[i], k, w.width)
+//@   ensures fresh(rst)
+//@   assigns nothing
+//@   loop 1
+//@     invariant -1 <= rangeindex && rangeindex < len(strs) && len(rst) == len(strs) && fresh(rst)
+//@     invariant forall i int :: 0 <= i && i <= rangeindex ==> len(rst[i]) == len(strs[i]) * (8 / w.width) && allocated(rst[i])
+//@     invariant forall i int, k int :: 0 <= i && i <= rangeindex && 0 <= k && k < len(rst[i]) ==> rst[i][k] == sword(strs[i], k, w.width)
+
+//@ func bitWord.ToStrs returns (rst)
+//@   witness-gen w = newBW([]int{1, 2, 4, 8}[r.Intn(4)]).(*bitWord)
+//@   requires bwInv(w)
+//@   requires forall i int, k int :: 0 <= i && i < len(bytesslice) && 0 <= k && k < len(bytesslice[i]) ==> bytesslice[i][k] <= w.wordMask
+//@   requires len(bytesslice) < 1<<40
+//@   ensures len(rst) == len(bytesslice)
+//@   ensures forall i int :: 0 <= i && i < len(bytesslice) ==> len(rst[i]) == (len(bytesslice[i]) + 8 / w.width - 1) / (8 / w.width)
+//@   ensures forall i int, k int :: 0 <= i && i < len(bytesslice) && 0 <= k && k < len(rst[i]) ==> rst[i][k] == pk(bytesslice[i], k, w.width, 8 / w.width)
+//@   ensures fresh(rst)
+//@   assigns nothing
+//@   loop 1
+//@     invariant -1 <= rangeindex && rangeindex < len(bytesslice) && len(rst) == len(bytesslice) && fresh(rst)
+//@     invariant forall i int :: 0 <= i && i <= rangeindex ==> len(rst[i]) == (len(bytesslice[i]) + 8 / w.width - 1) / (8 / w.width) && allocated(rst[i])
+//@     invariant forall i int, k int :: 0 <= i && i <= rangeindex && 0 <= k && k < len(rst[i]) ==> rst[i][k] == pk(bytesslice[i], k, w.width, 8 / w.width)
